@@ -581,6 +581,17 @@ pub mod wa {
         ent = abits(*e), dir = None, cols = [ColRef::W(a)],
         other = None);
 
+    site!(S10, WA, w,
+        params = [e: &EntityAny, x: &mut OneOf<CompB, CompL>, h: &mut CompH],
+        ent = abits(*e), dir = None, cols = [ColRef::W(x), ColRef::W(h)],
+        other = Some(&mut w.arch_p as &mut dyn ArchDyn));
+    // a cfg-disabled parameter behaves as if it had not been written: this site must match
+    // exactly what `|e: &EntityAny, a: &mut CompA|` matches (P, Q, T), not only ArchT
+    site!(S11, WA, w,
+        params = [e: &EntityAny, #[cfg(any())] _off: &EntityDirect<ArchT>, a: &mut CompA, #[cfg(any())] _off2: &CompS],
+        ent = abits(*e), dir = None, cols = [ColRef::W(a)],
+        other = None);
+
     world_spec!(WA, "WA",
         archs = [(0, ArchP, arch_p), (1, ArchQ, arch_q), (2, ArchR, arch_r), (3, ArchT, arch_t), (4, ArchV, arch_v), (5, ArchX, arch_x)],
         sites = [
@@ -594,6 +605,8 @@ pub mod wa {
             (7, S7, SiteInfo { name: "S7 |&EntityAny, &EntityDirectAny, &OneOf<CompB, CompL>|", matches: &[1, 2, 3, 4], cols: &[&[1], &[0], &[2], &[0]], muts: &[false], has_dir: true, other: Some(0) }),
             (8, S8, SiteInfo { name: "S8 |&OneOf<CompS, CompU>, &EntityDirectAny, &Entity<_>, &mut CompH|", matches: &[2, 3], cols: &[&[1, 2], &[4, 1]], muts: &[false, true], has_dir: true, other: Some(4) }),
             (9, S9, SiteInfo { name: "S9 |&mut CompA, &EntityAny|", matches: &[0, 1, 3], cols: &[&[0], &[0], &[0]], muts: &[true], has_dir: false, other: None }),
+            (10, S10, SiteInfo { name: "S10 |&EntityAny, &mut OneOf<CompB, CompL>, &mut CompH|", matches: &[2, 3], cols: &[&[0, 2], &[2, 1]], muts: &[true, true], has_dir: false, other: Some(0) }),
+            (11, S11, SiteInfo { name: "S11 |&EntityAny, #[cfg(any())] &EntityDirect<ArchT>, &mut CompA, #[cfg(any())] &CompS|", matches: &[0, 1, 3], cols: &[&[0], &[0], &[0]], muts: &[true], has_dir: false, other: None }),
         ],
         extra = {
             fn acc_double_use(&self, iter: bool, key: Option<Key>, k: &mut dyn FnMut()) -> Option<(usize, usize)> {
